@@ -87,7 +87,11 @@ func updateMethodCallsForSelfCall(method core_domain.CodeFunction, clz core_doma
 	currentMethodCalls := method.FunctionCalls
 	for _, methodCall := range currentMethodCalls {
 		if methodCall.NodeName == clz.NodeName {
-			jMethod := callMethodMap[methodCall.BuildFullMethodName()]
+			// the overload the number of arguments selects, else the method of that name
+			jMethod, ok := callMethodMap[core_domain.CallMethodKey(methodCall.BuildFullMethodName(), len(methodCall.Parameters))]
+			if !ok {
+				jMethod = callMethodMap[methodCall.BuildFullMethodName()]
+			}
 			if jMethod.Name != "" {
 				currentMethodCalls = append(currentMethodCalls, jMethod.FunctionCalls...)
 			}
